@@ -79,6 +79,22 @@ def _check_push(ctx):
                 ob.require(False, 'element length %s reaches the refusing arm; the specification arm is "%s"'
                            % (cell, expname), fi.where, expected=T.show(exp), found=T.show(v, maxdepth=4))
                 continue
+            tables = [x for x in T.walk(v) if T.is_op(x, 'GETITEM') and len(x) == 4 and x[3] == L and T.tag(x[2]) in ('tuple', 'list')
+                      and all(T.is_const(y) for y in x[2][1])]
+            if tables and hi is not None and hi - lo <= 600:
+                # the prefix is looked up in a constant table indexed by the element's length: the cell is decided length by
+                # length (a finite case analysis over the table's entries, nothing is executed)
+                bad = None
+                for k in range(lo, hi + 1):
+                    vk, ek = T.subst(v, {L: T.const(k)}), T.subst(exp, {L: T.const(k)})
+                    if vk != ek:
+                        bad = (k, vk, ek)
+                        break
+                ob.evaluations += hi - lo + 1
+                ob.require(bad is None, 'serialisation of a %s-byte element (%s), push prefix taken from a table: the entry for '
+                           'length %s' % (cell, expname, bad[0] if bad else ''), fi.where,
+                           expected=T.show(bad[2], maxdepth=4) if bad else None, found=T.show(bad[1], maxdepth=4) if bad else None)
+                continue
             same_term(ob, v, exp, 'serialisation of a %s-byte element (%s)' % (cell, expname), fi.where)
         # opcodes: an int command is one byte
         for opc in (0, 0x4b, 0x4c, 0x4e, 0x51, 0x87, 0xac, 0xff):
